@@ -24,7 +24,7 @@ func init() {
 				"contain a slash. R3: the ReverseProxy is built with Rewrite (which strips Forwarded / X-Forwarded-*) and without " +
 				"Director, and Rewrite only calls SetURL(target) and sets Host and User-Agent.",
 			NotCovered: "string predicates other than segment equality; behaviour of net/http and httputil themselves (hop-by-hop header handling).",
-			Rules: map[string]string{"C19-RC": "class rules (error chains, shadowed results, character classes, crossed arguments, pool constructors, array pools, loop completeness, loop-carried buffers, replacing setters, complete clones, Grow arithmetic, pooled-buffer escape, sorted searches, fresh decode targets, per-iteration objects, whole-message copies, codec guards) over the packages this property rests on", "C19-R5": "websvc.New: the linked-IP listeners' handler is the proxy gate itself, built for the configured target (nothing is routed around it)", 
+			Rules: map[string]string{"C19-RC": "class rules (error chains, shadowed results, character classes, crossed arguments, pool constructors, array pools, loop completeness, loop-carried buffers, replacing setters, complete clones, Grow arithmetic, pooled-buffer escape, sorted searches, fresh decode targets, per-iteration objects, whole-message copies, codec guards) over the packages this property rests on", "C19-R5": "websvc.New: the linked-IP listeners' handler is the proxy gate itself, built for the configured target (nothing is routed around it)",
 				"C19-R1": "ServeHTTP gate and header effects", "C19-R2": "shouldProxy decision table incl. dot segments and split limit",
 				"C19-R3": "ReverseProxy literal: Rewrite, not Director; Rewrite's effects",
 				"C19-R4": "the client-IP header is (re-)set on the outgoing request inside Rewrite, i.e. after httputil has removed the hop-by-hop headers that the client's Connection header names",
